@@ -50,6 +50,7 @@ type Interp struct {
 	pc      []string
 	syms    []string // declared symbolic inputs (for models)
 	symSort map[string]string
+	lines   map[string]*LineV
 	ufIsStr map[string]bool
 	cur     *frame
 	inconc  []string
@@ -1457,7 +1458,9 @@ func (it *Interp) witnessUnder(under string) map[string]interface{} {
 			terms = append(terms, "(= "+f+" "+it.lits[l]+")")
 		}
 		for _, d := range ufs {
-			terms = append(terms, "("+d+" "+f+")")
+			if it.catSeen["("+d+" "+f+")"] { // only predicates the path actually asked about
+				terms = append(terms, "("+d+" "+f+")")
+			}
 		}
 	}
 	for _, r := range it.records {
@@ -1496,7 +1499,9 @@ func (it *Interp) witnessUnder(under string) map[string]interface{} {
 			}
 		}
 		for _, d := range ufs {
-			fm[d] = val("(" + d + " " + f + ")")
+			if it.catSeen["("+d+" "+f+")"] {
+				fm[d] = val("(" + d + " " + f + ")")
+			}
 		}
 		fields[f] = fm
 	}
@@ -1531,6 +1536,9 @@ func (it *Interp) witnessUnder(under string) map[string]interface{} {
 	}
 	if len(recs) > 0 {
 		out["rec"] = recs
+	}
+	if c := it.concretize(out); len(c) > 0 {
+		out["concrete"] = c
 	}
 	return out
 }
